@@ -430,7 +430,7 @@ def gen_sim_configs(ctx):
                 return [dy(a), dy(a)]
             d, pts = data_on_grid(10, 10, k, bnds)
             cfgs.append(dict(sim=6, nbsimu=rng.randint(1, 3), nbtuba=0, grid=[], model=mdl(rng.choice([0, 1]), rng.randint(3, 8)), data=d, pts=pts,
-                             extra=[rng.choice([0, 5]), rng.choice([10, 30]), mm, 0]))
+                             extra=[rng.choice([0, 5]), rng.choice([10, 30]), mm, 0 if mm else rng.choice([0, 1])]))
         # 7/8 simpgs
         for simk, names, nbs in [(7, rng.choice(RULES[:6]), 2), (8, RULES[0], 2), (8, RULES[3], rng.randint(2, 3)), (8, rng.choice([RULES[2], RULES[4], RULES[5]]), 1),
                                  (8, rng.choice([RULES[2], RULES[4], RULES[5]]), rng.randint(2, 3))]:
